@@ -392,7 +392,7 @@ pub fn pname(p: u8) -> &'static str {
     }
 }
 
-fn classify(r: Result<DnsResponse, NetError>) -> Outcome {
+pub fn classify(r: Result<DnsResponse, NetError>) -> Outcome {
     match r {
         Ok(resp) => {
             let tc = resp.truncation;
